@@ -262,7 +262,7 @@ var WedgeTimeout = 6 * time.Second
 
 // ErrWedge is returned by Bubble when a goroutine of the case is blocked on a
 // lock/once/channel inside ship-go and does not move any more.
-type ErrWedge struct{ Stack string }
+type ErrWedge struct{ Stack, Full string }
 
 func (e *ErrWedge) Error() string { return "wedge: " + e.Stack }
 
@@ -315,7 +315,7 @@ func Bubble(t *testing.T, f func()) (err error) {
 	for id, st := range a {
 		if b[id] == st {
 			WedgeTimeout = 1500 * time.Millisecond // shrinking re-runs near-identical cases
-			return &ErrWedge{Stack: st}
+			return &ErrWedge{Stack: st, Full: FullStack()}
 		}
 	}
 	return &ErrInconclusive{Info: fmt.Sprintf("case still running after %s without a provable deadlock", WedgeTimeout+2*time.Second)}
@@ -374,4 +374,37 @@ func Journal(script any) {
 		return
 	}
 	_ = os.WriteFile(out+".journal", append(b, '\n'), 0o644)
+}
+
+// ---- real-time pause usable from inside a bubble ----------------------------
+
+var (
+	realSleepMu   sync.Mutex
+	realSleepReq  = make(chan time.Duration) // created outside any bubble
+	realSleepDone = make(chan struct{})
+)
+
+func init() {
+	go func() { // outside any bubble: real clock
+		for d := range realSleepReq {
+			time.Sleep(d)
+			realSleepDone <- struct{}{}
+		}
+	}()
+}
+
+// RealSleep pauses the calling goroutine for d of wall-clock time, also when
+// called inside a synctest bubble (where time.Sleep is virtual and where the
+// virtual clock cannot advance while a goroutine waits for a sync.Mutex).
+func RealSleep(d time.Duration) {
+	realSleepMu.Lock()
+	defer realSleepMu.Unlock()
+	realSleepReq <- d
+	<-realSleepDone
+}
+
+// FullStack returns the stacks of all goroutines.
+func FullStack() string {
+	buf := make([]byte, 8<<20)
+	return string(buf[:runtime.Stack(buf, true)])
 }
